@@ -10,13 +10,16 @@ func init() {
 	register(&Property{
 		ID:         "C32",
 		Level:      "other",
-		Technique:  "CFG pairing (pushStep/popStep, push/pop callbacks) on every path of every traversal body, dominance of recursion by err == nil, must-pass Break normalisation before every return, message/group pairing of kind tests (static)",
-		Explain:    "Decides structural necessary conditions of the protorange traversal contract: (1) in every traversal body (function or iteration callback) each pushStep is followed by popStep, and each push(*p) by pop(*p) (when pop is non-nil), on every path before the body exits or pushes again — pushes and pops are balanced and properly nested; (2) every recursive descent (rangeMessage/rangeList/rangeMap) happens between a push and its pop and only under err == nil; (3) every function that runs callbacks normalises Break to nil on every path to its error return (so Break skips exactly one subtree), and the public entry also normalises Terminate; (4) iteration callbacks stop the iteration when err != nil; (5) the decision to descend into a value never distinguishes MessageKind from GroupKind.",
+		Technique:  "CFG pairing (pushStep/popStep, push/pop callbacks) on every path of every traversal body, dominance of recursion by err == nil, must-pass Break normalisation before every return, message/group pairing of kind tests; finite case analysis of amendError over the four abstract error values; exact-exit rule for Any expansion (static)",
+		Explain:    "Decides structural necessary conditions of the protorange traversal contract: (1) in every traversal body (function or iteration callback) each pushStep is followed by popStep, and each push(*p) by pop(*p) (when pop is non-nil), on every path before the body exits or pushes again — pushes and pops are balanced and properly nested; (2) every recursive descent (rangeMessage/rangeList/rangeMap) happens between a push and its pop and only under err == nil; (3) every function that runs callbacks normalises Break to nil on every path to its error return (so Break skips exactly one subtree), and the public entry also normalises Terminate; (4) iteration callbacks stop the iteration when err != nil; (5) the decision to descend into a value never distinguishes MessageKind from GroupKind. Further: amendError is evaluated as a decision procedure over {nil, Break, Terminate, other error}² and has to return the higher verdict (Terminate survives an earlier Break); rangeAnyMessage declines expansion for exactly three reasons (not an Any, unresolvable URL, undecodable value); a Break is cleared per element — this last clause fails on the current tree at three constructs and is listed as open finding D30 (the pinned tests assert the behaviour).",
 		NotCovered: "that every populated value is visited exactly once and that each step's value equals the parent's value at that step (value-level); Any re-marshal equality.",
 		Quick:      all("./reflect/protorange"),
 		Thorough:   all("./..."),
 		Run: func(c *Ctx) {
 			c.ruleRangePairs("R-PUSH-POP")
+			c.ruleAmendErrorOrder("R-AMEND-ERROR-ORDER")
+			c.ruleAnyExpandExact("R-ANY-EXPAND-EXACT")
+			c.ruleBreakScope("R-BREAK-SCOPE")
 		},
 	})
 }
